@@ -1,1 +1,263 @@
-/-! # C06 — property theorems (stub: not built yet) -/
+import PymocaVerif.Lemmas.ObjGraph4
+import PymocaVerif.Generated.CopyFlags
+/-!
+# C06 — deep copies of a tree are independent of the original
+
+Model: `PymocaVerif.Model.ObjGraph` — `copy.deepcopy` with the memo, `_reconstruct`, pymoca's
+`Class.__deepcopy__` (seeds the memo with the parent; the membership test is a parameter) and
+`ClassModificationArgument.__deepcopy__` (scope shared), and the per-instance `__deepcopy__`
+attribute the hooks leave behind (a parameter).  Edits through the AST API are arbitrary
+allocations and writes confined to the objects of the edited tree.  What flattening a class of a
+tree can depend on is the view (unfolding to any depth, identities erased) of the objects it
+reaches; two trees with equal views flatten alike, and an edit that leaves all views of a tree
+unchanged is invisible to every flatten of that tree.
+
+Hypotheses (`Region`, `TreeShaped`, `NoScope`, no parent at the root) describe a tree as the
+parser and the API build it; the driver evaluates them on snapshots of the real trees.
+-/
+namespace PymocaVerif.C06
+open PymocaVerif.ObjGraph
+
+abbrev current : Cfg := PymocaVerif.Generated.CopyFlags.current
+
+/-- Obligation over the flags extracted from the code under test: memo test by id; both hooks
+    leave no per-instance `__deepcopy__` behind. -/
+theorem flags_ok : current.Good := ⟨rfl, rfl, rfl⟩
+
+theorem deepcopy_unfold {cfg : Cfg} {H H' : Heap} {x y : Nat} (h : deepcopy cfg H x = some (H', y)) :
+    ∃ st', deepcopySt cfg H x = some (st', y) ∧ st'.heap = H' := by
+  unfold deepcopy at h
+  cases hs : deepcopySt cfg H x with
+  | none => simp [hs] at h
+  | some r =>
+    obtain ⟨st', y'⟩ := r
+    simp only [hs, Option.some.injEq, Prod.mk.injEq] at h
+    exact ⟨st', by rw [h.2], h.1⟩
+
+/-- **`deepcopy` terminates** (the recursion depth never exceeds the number of objects). -/
+theorem copy_total (cfg : Cfg) (hg : cfg.Good) {H : Heap} {R : Nat → Prop} (hR : Region H R) {x : Nat}
+    (hx : R x) : ∃ H' y, deepcopy cfg H x = some (H', y) := by
+  obtain ⟨⟨st', y⟩, hs⟩ := deepcopySt_total hR hg hx
+  exact ⟨st'.heap, y, by unfold deepcopy; rw [hs]⟩
+
+/-- **The original is untouched**: a deep copy only allocates. -/
+theorem copy_preserves_original (cfg : Cfg) (hg : cfg.Good) {H H' : Heap} {R : Nat → Prop}
+    (hR : Region H R) {x y : Nat} (hx : R x) (h : deepcopy cfg H x = some (H', y)) :
+    ∀ o, o < H.length → H'[o]? = H[o]? := by
+  obtain ⟨st', hs, hh⟩ := deepcopy_unfold h
+  obtain ⟨ex, hex⟩ := (deepcopySt_spec hR hg hx hs).frame
+  intro o ho
+  rw [← hh, hex, List.getElem?_append_left ho]
+
+/-- **The copy is isomorphic to the original**: to every depth it unfolds to the same view, and
+    so does every object of the original afterwards. -/
+theorem copy_iso (cfg : Cfg) (hg : cfg.Good) {H H' : Heap} {R : Nat → Prop}
+    (hR : Region H R) {x y : Nat} (hx : R x) (h : deepcopy cfg H x = some (H', y)) (k : Nat) :
+    view H' k y = view H k x ∧ ∀ a, R a → view H' k a = view H k a := by
+  obtain ⟨st', hs, hh⟩ := deepcopy_unfold h
+  have out := deepcopySt_spec hR hg hx hs
+  rw [← hh]
+  exact ⟨view_copy hR out k x y hx (Or.inr out.res), fun a ha => view_copy hR out k a a ha (Or.inl rfl)⟩
+
+/-- **The copy is closed**: nothing reachable from the copy of a tree — through `own` references,
+    parents or scopes — existed before (so no class of the copy has a parent in the original). -/
+theorem copy_closed (cfg : Cfg) (hg : cfg.Good) {H H' : Heap} {R : Nat → Prop}
+    (hR : Region H R) (hts : TreeShaped H R) (hns : NoScope H R) {x y : Nat} (hx : R x)
+    (hroot : ∀ o, H[x]? = some o → parentOfFields o.fields = none)
+    (h : deepcopy cfg H x = some (H', y)) :
+    ∀ i, Reach H' y i → H.length ≤ i ∧ i < H'.length := by
+  obtain ⟨st', hs, hh⟩ := deepcopy_unfold h
+  have tc := tree_copy hR hts hns hg hx hroot hs
+  intro i hi
+  rw [← hh] at hi ⊢
+  obtain ⟨a, hab⟩ := reach_region tc.region tc.root i hi
+  exact ⟨(tc.fresh a i hab).1, (tc.out.dom a i hab).2⟩
+
+/-- **The copy is a tree again** — closed, hook free, tree shaped, scope free, root without parent,
+    disjoint from all that existed — while the original still is one: every statement here applies
+    to copies of copies. -/
+theorem copy_is_tree (cfg : Cfg) (hg : cfg.Good) {H H' : Heap} {R : Nat → Prop}
+    (hR : Region H R) (hts : TreeShaped H R) (hns : NoScope H R) {x y : Nat} (hx : R x)
+    (hroot : ∀ o, H[x]? = some o → parentOfFields o.fields = none)
+    (h : deepcopy cfg H x = some (H', y)) :
+    ∃ R' : Nat → Prop, Region H' R' ∧ TreeShaped H' R' ∧ NoScope H' R' ∧ R' y ∧
+      (∀ o, H'[y]? = some o → parentOfFields o.fields = none) ∧ (∀ b, R' b → H.length ≤ b) ∧
+      Region H' R ∧ TreeShaped H' R ∧ NoScope H' R := by
+  obtain ⟨st', hs, hh⟩ := deepcopy_unfold h
+  have tc := tree_copy hR hts hns hg hx hroot hs
+  obtain ⟨ex, hex⟩ := tc.out.frame
+  rw [← hh]
+  refine ⟨Copies st', tc.region, tc.tree, tc.noScope, tc.root, tc.rootParent,
+    fun b ⟨a, hab⟩ => (tc.fresh a b hab).1, ?_, ?_, ?_⟩
+  · rw [hex]; exact hR.append ex
+  · rw [hex]; exact hts.append hR ex
+  · intro a o i ha ho
+    rw [hex, hR.get_append ex ha] at ho
+    exact hns a o i ha ho
+
+/-- **An edit of one tree is invisible in the other**: an edit that allocates, and writes only to
+    objects of tree 1 or to what it allocated, leaves every view of tree 2 unchanged (and tree 2 a
+    region disjoint from the grown tree 1, so the statement applies to the next edit). -/
+theorem edit_independent {H : Heap} {R1 R2 : Nat → Prop} (hR2 : Region H R2)
+    (hdis : ∀ a, R1 a → R2 a → False) {e : Edit} (hc : Confined H R1 e) :
+    (∀ k a, R2 a → view (applyEdit H e) k a = view H k a) ∧ Region (applyEdit H e) R2 ∧
+      (∀ a, grow H R1 e a → R2 a → False) :=
+  ⟨edit_views hR2 hdis hc, edit_region hR2 hdis hc, grow_disjoint hR2 hdis e⟩
+
+/-- a run of edits of tree 1, each confined to what tree 1 consists of at that moment -/
+def ConfinedRun : Heap → (Nat → Prop) → List Edit → Prop
+  | _, _, [] => True
+  | H, R1, e :: es => Confined H R1 e ∧ ConfinedRun (applyEdit H e) (grow H R1 e) es
+
+def applyEdits : Heap → List Edit → Heap
+  | H, [] => H
+  | H, e :: es => applyEdits (applyEdit H e) es
+
+/-- **Any number of edits** of one tree (add/remove classes, symbols, equations, …) leave every
+    view of the other tree unchanged (induction over the run). -/
+theorem edits_independent : ∀ (es : List Edit) {H : Heap} {R1 R2 : Nat → Prop}, Region H R2 →
+    (∀ a, R1 a → R2 a → False) → ConfinedRun H R1 es →
+      ∀ k a, R2 a → view (applyEdits H es) k a = view H k a := by
+  intro es
+  induction es with
+  | nil => intro H R1 R2 _ _ _ k a _; rfl
+  | cons e es ih =>
+    intro H R1 R2 hR2 hdis hrun k a ha
+    obtain ⟨hc, hrest⟩ := hrun
+    obtain ⟨hv, hR2', hdis'⟩ := edit_independent hR2 hdis hc
+    simp only [applyEdits]
+    rw [ih hR2' hdis' hrest k a ha, hv k a ha]
+
+/-- **Copies of copies.**  Copy a tree, edit the copy in any way that leaves it a tree, copy the
+    copy: the second copy unfolds like the *edited copy*, and the original still unfolds as it did
+    before anything happened. -/
+theorem copies_of_copies (cfg : Cfg) (hg : cfg.Good) {H H1 : Heap} {R : Nat → Prop}
+    (hR : Region H R) (hts : TreeShaped H R) (hns : NoScope H R) {x y : Nat} (hx : R x)
+    (hroot : ∀ o, H[x]? = some o → parentOfFields o.fields = none)
+    (h1 : deepcopy cfg H x = some (H1, y)) :
+    ∃ R1 : Nat → Prop, R1 y ∧ (∀ a, R1 a → R a → False) ∧
+      ∀ (e : Edit), Confined H1 R1 e → Region (applyEdit H1 e) (grow H1 R1 e) →
+        ∀ H3 z, deepcopy cfg (applyEdit H1 e) y = some (H3, z) →
+          ∀ k, view H3 k z = view (applyEdit H1 e) k y ∧ ∀ a, R a → view H3 k a = view H k a := by
+  obtain ⟨R1, hR1, _, _, hy, _, hfresh, hRH1, _, _⟩ := copy_is_tree cfg hg hR hts hns hx hroot h1
+  have hdis : ∀ a, R1 a → R a → False := fun a h1' h2 => by
+    have := hfresh a h1'
+    have := hR.lt h2
+    omega
+  refine ⟨R1, hy, hdis, ?_⟩
+  intro e hc hRe H3 z h3 k
+  have hy' : grow H1 R1 e y := Or.inl hy
+  obtain ⟨hz, _⟩ := copy_iso cfg hg hRe hy' h3 k
+  refine ⟨hz, ?_⟩
+  intro a ha
+  -- the original: untouched by the first copy, by the edit, and by the second copy
+  obtain ⟨hv, hR2, _⟩ := edit_independent hRH1 hdis hc
+  have hx2 : R x := hx
+  obtain ⟨st3, hs3, hh3⟩ := deepcopy_unfold h3
+  obtain ⟨ex, hex⟩ := (deepcopySt_spec hRe hg hy' hs3).frame
+  have e3 : view H3 k a = view (applyEdit H1 e) k a := by
+    rw [← hh3, hex]
+    exact view_region_append hR2 ex k a ha
+  rw [e3, hv k a ha]
+  exact (copy_iso cfg hg hR hx h1 k).2 a ha
+
+/-! ## a concrete tree: hypotheses satisfiable; the two defects the fix removed -/
+
+/-- `Tree { class A { x; class B }, class C { c } }` -/
+def demo : Heap :=
+  [ { kind := .cls, name := "", label := "Tree", fields := [.own 1, .own 4], hook := none },
+    { kind := .cls, name := "A", label := "A", fields := [.own 2, .own 3, .par 0], hook := none },
+    { kind := .sym, name := "x", label := "x", fields := [], hook := none },
+    { kind := .cls, name := "B", label := "B", fields := [.par 1], hook := none },
+    { kind := .cls, name := "C", label := "C", fields := [.own 5, .par 0], hook := none },
+    { kind := .sym, name := "c", label := "c", fields := [], hook := none } ]
+
+theorem demo_region : Region demo (fun a => a < demo.length) := region_of_wfCheck (by decide +kernel)
+theorem demo_tree : TreeShaped demo (fun a => a < demo.length) := treeShaped_of_check (by decide +kernel)
+theorem demo_noScope : NoScope demo (fun a => a < demo.length) := by
+  intro a o i _ ho
+  have := allIdx_spec (show noScopeCheck demo = true by decide +kernel) a o ho
+  intro hi
+  rw [List.all_eq_true] at this
+  have := this _ hi
+  simp at this
+
+example : ∃ H' y, deepcopy current demo 0 = some (H', y) ∧ (∀ k, view H' k y = view demo k 0) ∧
+    ∀ i, Reach H' y i → demo.length ≤ i := by
+  obtain ⟨H', y, h⟩ := copy_total current flags_ok demo_region (x := 0) (by decide)
+  refine ⟨H', y, h, fun k => (copy_iso current flags_ok demo_region (by decide) h k).1, ?_⟩
+  intro i hi
+  exact (copy_closed current flags_ok demo_region demo_tree demo_noScope (by decide)
+    (by intro o ho; simp [demo] at ho; subst ho; rfl) h i hi).1
+
+/-- relabel the object at index `i` -/
+def relabel (h : Heap) (i : Nat) (l : String) : Edit :=
+  match h[i]? with
+  | some o => { allocs := [], writes := [(i, { o with label := l })] }
+  | none => { allocs := [], writes := [] }
+
+theorem relabel_confined (h : Heap) (i : Nat) (l : String) (R1 : Nat → Prop) (hi : R1 i) :
+    Confined h R1 (relabel h i l) := by
+  unfold relabel Confined
+  cases h[i]? with
+  | none => intro w hw; cases hw
+  | some o =>
+    intro w hw
+    simp only [List.mem_singleton] at hw
+    subst hw
+    exact Or.inl hi
+
+/-- relabelling any objects of the copy, any number of times, is invisible in the original -/
+example (H' : Heap) (y : Nat) (h : deepcopy current demo 0 = some (H', y)) (i j : Nat) (l : String)
+    (hi : demo.length ≤ i) (hj : demo.length ≤ j) (k a : Nat) (ha : a < demo.length) :
+    view (applyEdits H' [relabel H' i l, relabel (applyEdit H' (relabel H' i l)) j l]) k a = view demo k a := by
+  obtain ⟨_, _, _, _, _, _, _, hRH', _, _⟩ :=
+    copy_is_tree current flags_ok demo_region demo_tree demo_noScope (x := 0) (by decide)
+      (by intro o ho; simp [demo] at ho; subst ho; rfl) h
+  have hdis : ∀ b, (fun b => demo.length ≤ b) b → (fun b => b < demo.length) b → False := by
+    intro b h1 h2; omega
+  rw [edits_independent _ hRH' hdis ?_ k a ha]
+  · exact (copy_iso current flags_ok demo_region (by decide) h k).2 a ha
+  · exact ⟨relabel_confined _ _ _ _ hi, relabel_confined _ _ _ _ (Or.inl hj), trivial⟩
+
+/-- copy the tree, edit class `A` of the copy, copy the copy; compare the second copy with the
+    edited first copy (labels in preorder, depth 3) -/
+def secondGeneration (cfg : Cfg) : Option (List String × List String) :=
+  match deepcopy cfg demo 0 with
+  | none => none
+  | some (H1, y) =>
+    match lookupPath H1 y ["A"] with
+    | none => none
+    | some a =>
+      let H2 := applyEdit H1 (relabel H1 a "A-edited")
+      match deepcopy cfg H2 y with
+      | none => none
+      | some (H3, z) => some (viewLabels H3 3 z, viewLabels H2 3 y)
+
+example : (match secondGeneration current with | some (l3, l2) => decide (l3 = l2) | none => false) = true := by
+  decide +kernel
+
+/-- the hooks before the fix: the copy's instance attribute is the bound method of the original -/
+def staleHook : Cfg := { current with hookRebind := .toOriginal }
+
+/-- **With the stale hook a second-generation copy is a copy of the original**: the edit made to the
+    first copy is missing from its copy. -/
+theorem counterexample_stale_hook :
+    (match secondGeneration staleHook with
+     | some (l3, l2) => decide (l3 ≠ l2) && decide ("A-edited" ∈ l2) && decide ("A-edited" ∉ l3)
+     | none => false) = true := by
+  decide +kernel
+
+/-- the memo test before the fix: `self.parent not in memo` (the memo is keyed by `id`) -/
+def memoByObject : Cfg := { current with memoTest := .byObject }
+
+/-- **With the memo test on the object the copy is not closed**: a class of the copy has its parent
+    in the original tree. -/
+theorem counterexample_parent_escape :
+    (match deepcopy memoByObject demo 0 with
+     | some (H', _) => (H'.drop demo.length).any fun o => o.fields.any fun f =>
+         match f with | .par p => decide (p < demo.length) | _ => false
+     | none => false) = true := by
+  decide +kernel
+
+end PymocaVerif.C06
